@@ -829,3 +829,10 @@ Proof.
   intros H Hl. unfold lb_tflag, lb_view_of. cbn [lv_dates].
   rewrite map_length, <- Hl, firstn_all, map_map. apply convert_is_spec. exact H.
 Qed.
+
+Lemma lb_etflag_spec l eh : Forall (fun t => 0 <= t <= 23) eh -> length eh = length (l_steps l) ->
+  lb_etflag (lb_view_of l) eh = spec_camx_time (map (fun st => nth 2 (fst st) 0) (l_steps l)) eh.
+Proof.
+  intros H Hl. unfold lb_etflag, lb_view_of. cbn [lv_dates].
+  rewrite map_length, <- Hl, firstn_all, map_map. apply convert_is_spec. exact H.
+Qed.
